@@ -14,7 +14,7 @@ PROPERTY_ID = 'C13'
 
 RULE = ('Model sizes are enumerated over everything that fits (co_oxidation order 2..6, signaling_cascade d 2..4, toll_station '
         '2..5 lanes x 1..3 cars, two_step m 1..3, qft/iqft n 1..7, qfa, qfan 1..5, shor a in units mod 15, exciton_chain 2..7 '
-        'sites, ising 2..8 sites, fpu d 3..6, kuramoto d 2..6, fractals dimension 1..3 x level 1..3) and combined with '
+        'sites, ising 2..8 sites, fpu d 3..6, kuramoto d 2..6, fractals dimension 1..3 x level 1..8 as far as 3^(level*dim) <= 6e5 / 6e6 entries) and combined with '
         'Hypothesis-drawn rate constants, couplings, frequencies, evaluation points. Oracles are the defining formulas: column '
         'sums / sign pattern (dense, or in TT form: norm of 1^T A by transfer matrices plus sampled off-diagonal entries through '
         'core slices), G^H G = I (dense, or ||G^H G - I||_F by harness-side TT arithmetic), bit-reversed DFT for the product of '
@@ -332,14 +332,21 @@ def body_physics(case):
 @st.composite
 def fractal_case(draw):
     model = draw(st.sampled_from(['cantor_dust', 'multisponge', 'vicsek_fractal', 'rgb_fractal']))
-    c = {'model': model, 'level': draw(st.integers(1, 3)), 'seed': draw(gen.SEED)}
+    c = {'model': model, 'level': draw(st.integers(1, 8)), 'seed': draw(gen.SEED)}
     if model == 'cantor_dust':
         c['dimension'] = draw(st.integers(1, 3))
     elif model == 'rgb_fractal':
         c['n'] = draw(st.integers(1, 3))
+        c['level'] = min(c['level'], 6 if c['n'] <= 2 else 4)
     else:
         c['dimension'] = draw(st.integers(2, 3))
+    if 'dimension' in c:
+        while 3 ** (c['level'] * c['dimension']) > FRACTAL_MAX:
+            c['level'] -= 1
     return c
+
+
+FRACTAL_MAX = 6_000_000 if __import__('os').environ.get('VERIF_TIER') == 'thorough' else 600_000
 
 
 def digits3(i, level):
@@ -377,14 +384,24 @@ def body_fractal(case):
         return 1 if mid >= dim - 1 else 0
 
     f = getattr(mdl, model)(dim, level)
-    require(isinstance(f, np.ndarray) and f.shape == (3 ** level,) * dim, 'fractal_shape', 'shape %s' % (getattr(f, 'shape', None),))
-    want = np.zeros((3 ** level,) * dim, dtype=int)
-    for idx in np.ndindex(*want.shape):
-        dg = [digits3(i, level) for i in idx]
-        v = 1
-        for l in range(level):
-            v *= gen_entry([dg[k][l] for k in range(dim)])
-        want[idx] = v
+    side = 3 ** level
+    require(isinstance(f, np.ndarray) and f.shape == (side,) * dim, 'fractal_shape', 'shape %s, expected %s' % (getattr(f, 'shape', None), (side,) * dim))
+    # digit-wise definition, vectorised: entry = prod over levels of generator[base-3 digits of the coordinates at that level]
+    dg = np.array([digits3(i, level) for i in range(side)])            # (side, level)
+    want = np.ones((side,) * dim, dtype=int)
+    for l in range(level):
+        mid = np.zeros((side,) * dim, dtype=int)
+        for ax in range(dim):
+            shp = [1] * dim
+            shp[ax] = side
+            mid = mid + (dg[:, l] == 1).astype(int).reshape(shp)
+        if model == 'cantor_dust':
+            g = (mid == 0)
+        elif model == 'multisponge':
+            g = (mid <= 1)
+        else:
+            g = (mid >= dim - 1)
+        want = want * g
     require(np.array_equal(np.asarray(f), want), 'fractal_value', '%s(%d,%d) differs from the digit-wise definition' % (model, dim, level))
     lab.add('dim%d' % dim)
     lab.add('other_size')
